@@ -222,11 +222,17 @@ func (r *Run) Finish() int {
 		fmt.Fprintf(os.Stderr, "cannot write evidence: %v\n", err)
 		return 2
 	}
-	if len(r.broken) > 0 {
+	if len(r.broken) > 0 && len(r.viol) == 0 {
 		for _, b := range r.broken {
 			fmt.Printf("BROKEN-CHECK property=%s %s\n", r.Prop, b)
 		}
 		return 2
+	}
+	// reproducible violations stand on their own; non-reproducing observations are notes
+	for i, b := range r.broken {
+		if i < 3 {
+			fmt.Printf("NOTE property=%s (not counted) %s\n", r.Prop, b)
+		}
 	}
 	keys := make([]string, 0, len(r.knownHits))
 	for k := range r.knownHits {
